@@ -40,8 +40,10 @@
 (*   ret   (Stream returned)   Return, or ConnectFail if nothing happened  *)
 (*                             since Call; result[att] must be the logged  *)
 (*                             result                                      *)
-(*   error (Error() returned)  ErrorCall [. ErrorRecv]; eres must be the   *)
-(*                             logged result of the first call             *)
+(*   error (Error() returned)  ErrorCall [. ErrorRecv], now or silently    *)
+(*                             earlier (Error() has no hook point and its  *)
+(*                             line is written after it returned); eres    *)
+(*                             must be the logged result of the first call *)
 (*   other hook points         stuttering steps guarded by the pc values   *)
 (*                                                                         *)
 (* Hook points sit BEFORE operations that enable another goroutine (send,  *)
@@ -61,19 +63,20 @@ CONSTANT TraceFile
 
 Trace == ndJsonDeserialize(TraceFile)
 
-VARIABLES l, early, mend     \* mend: how the master ends the current connection according to the attempt's plan
-tvars == <<vars, l, early, mend>>
+VARIABLES l, early, mend,    \* mend: how the master ends the current connection according to the attempt's plan
+          epend              \* Error() calls the model has already completed whose line has not been reached yet
+tvars == <<vars, l, early, mend, epend>>
 
 Line == Trace[l]
 Has == l <= Len(Trace)
 IsHook(p) == Has /\ Line.e = "hook" /\ Line.p = p
 A == Line.a + 1                       \* the trace counts attempts from 0
 Adv == l' = l + 1
-K(X) == X /\ UNCHANGED <<l, early, mend>>   \* a composed step that consumes no line
-Last(X) == X /\ Adv /\ UNCHANGED <<early, mend>>
-Stutter == UNCHANGED vars /\ Adv /\ UNCHANGED <<early, mend>>
+K(X) == X /\ UNCHANGED <<l, early, mend, epend>>   \* a composed step that consumes no line
+Last(X) == X /\ Adv /\ UNCHANGED <<early, mend, epend>>
+Stutter == UNCHANGED vars /\ Adv /\ UNCHANGED <<early, mend, epend>>
 
-TInit == Init /\ l = 1 /\ early = 0 /\ mend = "none"
+TInit == Init /\ l = 1 /\ early = 0 /\ mend = "none" /\ epend = 0
 
 \* a new Streamer object
 TScenario ==
@@ -88,11 +91,11 @@ TScenario ==
   /\ pending' = [a \in Att |-> "none"]
   /\ cancelledAtReturn' = [a \in Att |-> FALSE]
   /\ hpc' = "idle" /\ epc' = "idle" /\ ecalls' = 0 /\ eres' = "none" /\ retRes' = "none" /\ retWhy' = "none"
-  /\ Adv /\ early' = 0 /\ mend' = "none"
+  /\ Adv /\ early' = 0 /\ mend' = "none" /\ epend' = 0
 
 TEnd == Has /\ Line.e = "end" /\ Stutter
 
-TCall == Has /\ Line.e = "attempt" /\ Call /\ att' = A /\ Adv /\ early' = 0 /\ mend' = Line.m
+TCall == Has /\ Line.e = "attempt" /\ epend = 0 /\ Call /\ att' = A /\ Adv /\ early' = 0 /\ mend' = Line.m /\ UNCHANGED epend
 
 ConnectNow == ConnectOkN(MaxPkts)
 \* the stages between Call and Spawn have no hook point of their own: they are taken when the first line after them
@@ -118,10 +121,10 @@ TCallerStutter ==
 
 TTake ==
   \/ /\ IsHook("parser.gotEvent")
-     /\ IF early > 0 THEN UNCHANGED <<vars, mend>> /\ Adv /\ early' = early - 1
+     /\ IF early > 0 THEN UNCHANGED <<vars, mend, epend>> /\ Adv /\ early' = early - 1
         ELSE Last(ParserTakesEvent)
   \/ /\ IsHook("reader.handedOff")
-     /\ IF A = att /\ held[A] # "none" THEN ParserTakesEvent /\ Adv /\ early' = early + 1 /\ UNCHANGED mend
+     /\ IF A = att /\ held[A] # "none" THEN ParserTakesEvent /\ Adv /\ early' = early + 1 /\ UNCHANGED <<mend, epend>>
         ELSE Stutter
 
 TCaller ==
@@ -146,7 +149,7 @@ TReader ==
   \/ IsHook("reader.exit") /\ rpc[A] = "exit" /\ Stutter
 
 \* dc.Close(): no line of its own; it happens between close.begin and close.end
-TCloseSocket == spc = "closeSock" /\ CloseSocket /\ UNCHANGED <<l, early, mend>>
+TCloseSocket == spc = "closeSock" /\ CloseSocket /\ UNCHANGED <<l, early, mend, epend>>
 
 TCancel ==
   /\ Has /\ Line.e = "cancel" /\ att > 0
@@ -160,14 +163,23 @@ TRet ==
      ELSE IF spc = "return" THEN Last(Return /\ result'[att] = Line.res)
      ELSE spc = "idle" /\ result[att] = Line.res /\ Stutter
 
+\* Error() has no hook point: its line is written when the call has returned, which can be later than the moment it
+\* received from the channel and looked at the context (a cancel may be logged in between).  The model may therefore
+\* complete a call silently (TErrorEarly) before the line that reports it; the line then only checks the result.
 ECheck == Line.call = 1 => eres' = Line.res       \* the logged result of the first Error() call is the model's
+TErrorEarly ==
+  /\ spc = "idle" /\ att > 0 /\ epc = "idle" /\ ecalls < MaxErrorCalls /\ result[att] # "none"
+  /\ IF sErrChan = 0 THEN ErrorCall /\ UNCHANGED <<l, early, mend>> /\ epend' = epend + 1
+     ELSE K(ErrorCall) \cdot (ErrorRecv /\ UNCHANGED <<l, early, mend>> /\ epend' = epend + 1)
 TError ==
   /\ Has /\ Line.e = "error"
-  /\ IF sErrChan = 0 THEN Last(ErrorCall /\ ECheck) ELSE K(ErrorCall) \cdot Last(ErrorRecv /\ ECheck)
+  /\ IF epend > 0
+     THEN (Line.call = 1 => eres = Line.res) /\ UNCHANGED <<vars, early, mend>> /\ Adv /\ epend' = epend - 1
+     ELSE IF sErrChan = 0 THEN Last(ErrorCall /\ ECheck) ELSE K(ErrorCall) \cdot Last(ErrorRecv /\ ECheck)
 
 TNext ==
   \/ TScenario \/ TEnd \/ TCall \/ TSpawn \/ TConnFail \/ TCallerStutter \/ TTake \/ TCaller \/ TReader
-  \/ TCancel \/ TRet \/ TError \/ TCloseSocket
+  \/ TCancel \/ TRet \/ TError \/ TErrorEarly \/ TCloseSocket
 
 TSpec == TInit /\ [][TNext]_tvars
 
